@@ -7,6 +7,7 @@ harness/c02.py).  Proofs are in `Verif.C02.Lemmas`; this file states the clauses
 import Verif.C02.Model
 import Verif.C02.Lemmas
 import Verif.C02.PLemmas
+import Verif.C02.LexLemmas
 
 namespace Verif.C02
 open Verif.Codec Verif.Py
@@ -135,6 +136,68 @@ theorem simpledmrs_stable (o : Opts) (d : DMRS) : encDmrsToks o (viewS o d) = en
   congr 3
   have hun : Lnk.unspec.truthy = false := rfl
   cases ol <;> cases htr : d.lnk.truthy <;> simp [attrToks, htr, hun]
+
+/-! ## SimpleDMRS at the level of the text -/
+
+/-- The character-level model `lexText` of `_SimpleDMRSLexer` (the fifteen token classes pinned in
+`c02LexerTokens`, tried in order at every position of every line) reads the single-line text
+`render (encDmrsToks o d)` — the text `encode(d, indent=None)` writes, compared with the real encoder on
+every generated case — back into exactly the token list, for every `d` whose printed pieces are tokens of
+their classes (`lexOK`, a decidable predicate: symbols over `[^\s"'()\/:;<=>[\]{}]` not starting with `--`,
+strings without line breaks, alignments the LNK class accepts). -/
+theorem simpledmrs_lexer_roundtrip (o : Opts) (d : DMRS) (h : lexOK d = true) :
+    lexText (encodeText o d) = some (encDmrsToks o d) :=
+  lexText_encodeText o d h
+
+/-- … for any list of lexically expressible tokens, not only those of an encoding -/
+theorem simpledmrs_lexer_render (ts : List T) (hok : ∀ t ∈ ts, TokOK t) : lexText (render ts) = some ts :=
+  lexText_render ts hok
+
+/-- "For every DMRS, decoding its SimpleDMRS … encoding yields the same node identifiers, predicates, node
+types, properties, constants, surface alignments, links … and top/index", now from characters to characters:
+`decode(encode(d)) = viewS o d` (view as in `simpledmrs_roundtrip_view`: F11 maps type `u` to `None`). -/
+theorem simpledmrs_text_roundtrip (o : Opts) (d : DMRS) (hwf : d.WF) (hx : ExpressibleSD d) (hl : lexOK d = true) :
+    decodeText (encodeText o d) = .ok (viewS o d) :=
+  decodeText_encodeText o d hwf hx hl
+
+/-- the main clause under the hypothesis forced by F11, at text level -/
+theorem simpledmrs_text_roundtrip_partial (o : Opts) (d : DMRS) (hwf : d.WF) (hx : ExpressibleSD d)
+    (hl : lexOK d = true) (hu : NoTypeU d) :
+    decodeText (encodeText o d) = .ok (keptS o d) := by
+  have h1 := simpledmrs_roundtrip_view o d hwf hx []
+  have h2 := simpledmrs_roundtrip_partial o d hwf hx hu []
+  rw [h1] at h2
+  have : viewS o d = keptS o d := by injection h2 with h; exact (Prod.mk.inj h).1
+  rw [decodeText_encodeText o d hwf hx hl, this]
+
+/-- multi-graph documents: `loads(dumps(ds))` at text level -/
+theorem simpledmrs_text_list_roundtrip (o : Opts) (ds : List DMRS)
+    (h : ∀ d ∈ ds, d.WF ∧ ExpressibleSD d) (hl : ∀ d ∈ ds, lexOK d = true) :
+    decodeTextList (encodeTextList o ds) = .ok (ds.map (viewS o)) :=
+  decodeTextList_encodeTextList o ds h hl
+
+/-- "re-encoding reproduces the text": the text of the decoded graph is the same text -/
+theorem simpledmrs_text_stable (o : Opts) (d : DMRS) : encodeText o (viewS o d) = encodeText o d := by
+  unfold encodeText
+  rw [simpledmrs_stable]
+
+/-- the same in the indented layout (`indent=k`: `dmrs id {`, then one line per item with `k` blanks in front,
+then `}`; graphs of a document separated by line feeds) — the lexer works line by line (`s.splitlines()`) -/
+theorem simpledmrs_text_roundtrip_indent (o : Opts) (k : Nat) (d : DMRS) (hwf : d.WF) (hx : ExpressibleSD d)
+    (hl : lexOK d = true) : decodeText (encodeTextIndent o k d) = .ok (viewS o d) :=
+  decodeText_encodeTextIndent o k d hwf hx hl
+
+theorem simpledmrs_text_list_roundtrip_indent (o : Opts) (k : Nat) (ds : List DMRS)
+    (h : ∀ d ∈ ds, d.WF ∧ ExpressibleSD d) (hl : ∀ d ∈ ds, lexOK d = true) :
+    decodeTextList (encodeTextIndentList o k ds) = .ok (ds.map (viewS o)) :=
+  decodeTextList_encodeTextIndentList o k ds h hl
+
+/-- indentation changes the layout only: both layouts lex to the same tokens -/
+theorem simpledmrs_indent_same_tokens (o : Opts) (k : Nat) (d : DMRS) (hl : lexOK d = true) :
+    lexText (encodeTextIndent o k d) = lexText (encodeText o d) := by
+  rw [lexText_encodeTextIndent o k d hl, lexText_encodeText o d hl]
+
+example : lexOK dTypeU = true := by decide
 
 /-! ## DMRS-JSON and DMRX -/
 
